@@ -56,7 +56,7 @@ def shards(tier):
 def floors(tier):
     f = {"positive": 20000, "negative": 10000, "through_validator": 1000, "hostile_first": 300,
          "hostile_middle": 300, "hostile_last": 300, "distinct_nontrivial": 10000, "short_lived_resolutions": 5000, "whole_documents_through_resolver": 100, "document_named_like_a_metaschema": 150, "document_named_like_a_store_entry": 80,
-         "reused_validator_pointer_sequences": 500}
+         "reused_validator_pointer_sequences": 500, "member_as_referrer_lookups": 10000}
     f["neg:index_beyond_int_conversion_limit"] = 40
     for k in ("missing_key", "index_eq_len", "index_gt_len", "non_index_token", "token_on_scalar", "token_on_string",
               "disguised_in_range_index"):
@@ -282,6 +282,37 @@ def whole_documents_through_the_resolver(ctx):
                     ctx.violation("positive-wrong-value", case, "returned %r instead of the whole document %r" % (got, doc))
 
 
+def member_as_referrer(ctx, rng, doc, n):
+    """The resolver's own base URI carries a pointer: its referrer is one MEMBER of a larger document that is supplied in the
+    store under the fragment-less URI.  References into "the same document" ('#/...', '#', the absolute URI) address
+    locations of the enclosing document, exactly as for any other resolver."""
+    members = [(p, v) for p, v in locations(doc) if p and isinstance(v, (dict, list))]
+    if not members:
+        return
+    U0 = "http://store.example/enclosing/e%d.json" % n
+    for mp, member in rng.sample(members, min(2, len(members))):
+        base = U0 + "#" + U.fragment_for(tokens(mp))
+        try:
+            R_ = RefResolver(base, member, store={U0: doc})
+        except Exception as e:
+            ctx.violation("positive-other-exception", {"document": doc, "base_uri": base}, "constructing the resolver: %s" % type(e).__name__)
+            continue
+        locs = list(locations(doc))
+        for path, target in [locs[0]] + rng.sample(locs, min(6, len(locs))):
+            frag = U.fragment_for(tokens(path))
+            for ref in ("#" + frag, U0 + "#" + frag) + ((U0,) if not path else ()):
+                case = {"document": doc, "member_path": list(mp), "base_uri": base, "ref": ref, "path": list(path), "member_as_referrer": True}
+                ctx.case([doc, base, ref])
+                ctx.count("member_as_referrer_lookups")
+                try:
+                    got = R_.resolve(ref)[1]
+                except Exception as e:
+                    ctx.violation("positive-raised", case, "%s: %s" % (type(e).__name__, str(e)[:120]))
+                    continue
+                if got is not target:
+                    ctx.violation("positive-wrong-value", case, "returned %r instead of the addressed %r" % (got, target))
+
+
 def reused_validator_pointers(ctx, rng, doc):
     """One validator object whose references are pointers into the same document, some addressing a marker schema and
     one addressing nothing: a pointer that failed cleanly (RefResolutionError) must leave the next ones resolving to
@@ -402,6 +433,7 @@ def run(ctx):
             negative(ctx, rr, doc)
             through_validator(ctx, rr, doc)
             reused_validator_pointers(ctx, rr, doc)
+            member_as_referrer(ctx, rr, doc, idx)
     short_lived_documents(ctx, ctx.scale(400, 5000))
     if ctx.shard == 0:
         whole_documents_through_the_resolver(ctx)
@@ -414,6 +446,8 @@ def run(ctx):
             through_validator(ctx, rng, doc)
         if i % 4 == 1:
             reused_validator_pointers(ctx, rng, doc)
+        if i % 4 == 2:
+            member_as_referrer(ctx, rng, doc, i)
         if i % 400 == 0:
             ctx.sample({"document": doc, "fragments": [U.fragment_for(tokens(p)) for p, _ in list(locations(doc))[:4]]})
 
@@ -421,6 +455,23 @@ def run(ctx):
 def replay(ctx, rec):
     c = rec["case"]
     R = resolver()
+    if c.get("member_as_referrer"):
+        doc = c["document"]
+        member = doc
+        for p in c["member_path"]:
+            member = member[p]
+        target = doc
+        for p in c["path"]:
+            target = target[p]
+        U0 = c["base_uri"].split("#")[0]
+        try:
+            got = RefResolver(c["base_uri"], member, store={U0: doc}).resolve(c["ref"])[1]
+        except Exception as e:
+            ctx.violation("positive-raised", c, "%s: %s" % (type(e).__name__, str(e)[:120]))
+            return
+        if got is not target:
+            ctx.violation("positive-wrong-value", c, "returned %r instead of the addressed %r" % (got, target))
+        return
     if "via" in c:
         whole_documents_through_the_resolver(ctx)       # deterministic and small: the whole cell is run again
         return
